@@ -196,7 +196,7 @@ def natural(ctx, rep):
     rng = ctx.sub_rng('natural')
     for _ in range((150 if ctx.tier == 'quick' else 20000) * ctx.scale // ctx.parts):
         a, b, c = rng.uniform(-0.9, 0.9), rng.uniform(-0.9, 0.9), rng.uniform(-2, 2)
-        script = f'Y = {a!r} * Z + {c!r} + 0.5 * Y[-1]\nZ = {b!r} * Y + X'
+        script = f'Y = {a:.12f} * Z + {c:.12f} + 0.5 * Y[-1]\nZ = {b:.12f} * Y + X'
         Model = fsic.build_model(fsic.parse_model(script))
         Traced = type('T', (TracerMixin, Model), {})
         n = 5
